@@ -4,6 +4,7 @@ import (
 	"context"
 	"fmt"
 	"math/big"
+	"runtime"
 	"strings"
 	"sync"
 	"sync/atomic"
@@ -77,6 +78,12 @@ func (r *scriptRNG) Read(p []byte) (int, error) {
 // of events a call put on the bus. The harness is single threaded with respect to writes.
 var busSends atomic.Int64
 
+// busListens / busStops count Bus.Listen calls (bus.listen.beforeRegister) and listeners whose channel
+// has been closed by their stop goroutine (listener.stop.closed): their difference is the number of
+// listeners that can still be handed an event. The harness runs one resource at a time and closes it
+// synchronously, so the count is exact for the resource under test.
+var busListens, busStops atomic.Int64
+
 // armedPoint: the next goroutine that reaches this yield point parks (once) until released.
 var (
 	armedPoint atomic.Value // string
@@ -87,8 +94,13 @@ var (
 func installHook() {
 	armedPoint.Store("")
 	verifhook.Set(func(point string) {
-		if point == "bus.send.afterSnapshot" {
+		switch point {
+		case "bus.send.afterSnapshot":
 			busSends.Add(1)
+		case "bus.listen.beforeRegister":
+			busListens.Add(1)
+		case "listener.stop.closed":
+			busStops.Add(1)
 		}
 		if p, _ := armedPoint.Load().(string); p != "" && p == point && armedPoint.CompareAndSwap(p, "") {
 			parkedCh <- struct{}{}
@@ -116,6 +128,9 @@ type real struct {
 	subs        map[string]*realSub
 	subOrder    []string
 	pids        map[string]*pidInfo // PullID subscriptions, by name
+	pidEnded    bool                // a PullID stream ended during the deliveries being collected
+	// subscriptions a scenario has opened (their listener is on the bus) but not yet entered in subs
+	unregistered int
 }
 
 // pidInfo: a PullID subscription is observed together with a hidden plain Pull with the same options
@@ -199,6 +214,51 @@ func (s *realSub) take(n int) []string {
 	}
 }
 
+// expectedLive: how many bus listeners of the resource under test have a live context: one per open
+// Pull, two per PullID that has not ended (its inner Pull and the harness's shadow Pull), the probe.
+func (r *real) expectedLive() int64 {
+	n := int64(r.unregistered)
+	if r.probeCancel != nil {
+		n++
+	}
+	for name := range r.subs {
+		if pi := r.pids[name]; pi != nil {
+			if !pi.ended {
+				n += 2
+			}
+			continue
+		}
+		n++
+	}
+	return n
+}
+
+// listenerWaitsOff: a cancelled listener once failed to stop within the bound (the run is failing anyway)
+var listenerWaitsOff bool
+
+// awaitListeners waits (bounded) until every listener whose context has been cancelled has been stopped
+// by the bus (its channel closed): from then on no Send can hand it an event, so its Pull goroutine
+// makes no further equivalence call that could be mistaken for a live subscriber's.
+func (r *real) awaitListeners() bool {
+	if listenerWaitsOff {
+		return true
+	}
+	want := r.expectedLive()
+	deadline := time.Now().Add(waitBound / 2)
+	for i := 0; busListens.Load()-busStops.Load() != want; i++ {
+		if time.Now().After(deadline) {
+			listenerWaitsOff = true
+			return false
+		}
+		if i < 200 {
+			runtime.Gosched()
+		} else {
+			time.Sleep(50 * time.Microsecond)
+		}
+	}
+	return true
+}
+
 // subscribe opens a backpressured Pull and returns the seed events (their number is known from the
 // contents: one per stored item / one for a present value, none for updates-only).
 func (r *real) subscribe(o Op) string {
@@ -262,6 +322,9 @@ func (r *real) unsubscribe(o Op) string {
 			break
 		}
 	}
+	if !r.awaitListeners() {
+		return "!listener-not-stopped"
+	}
 	return "ok"
 }
 
@@ -292,6 +355,14 @@ func (r *real) deliveries(sends int) string {
 			}
 		}
 		parts = append(parts, name+"="+showList(sb.take(n)))
+	}
+	if r.pidEnded {
+		// PullID streams ended: their inner Pulls (cancelled by PullID itself) and the shadows must have
+		// been stopped by the bus before the next write
+		r.pidEnded = false
+		if !r.awaitListeners() {
+			parts = append(parts, "!listener-not-stopped")
+		}
 	}
 	return strings.Join(parts, " ")
 }
@@ -361,6 +432,8 @@ func (r *real) close() {
 	for _, p := range r.pids {
 		p.shadow.cancel()
 	}
+	r.probeCancel, r.subs, r.pids = nil, nil, nil
+	r.awaitListeners()
 }
 
 func kindName(t types.ChangeType) string {
@@ -774,6 +847,27 @@ func (r *real) pidDeliveries(sb *realSub, pi *pidInfo, sends int) string {
 	if pi.ended {
 		return "[]$"
 	}
+	note := ""
+	if r.cmp != nil {
+		// the inner Pull of the PullID and the shadow Pull (same options) each consult the equivalence
+		// once per bus event, on the same pair: the shadow receives the events it does not relate
+		passed := 0
+		for i := 0; i < 2*sends; i++ {
+			select {
+			case suppressed := <-r.cmp.ch:
+				if !suppressed {
+					passed++
+				}
+			case <-time.After(takeBound):
+				noteTimeout()
+				note = "!no-equivalence-call"
+			}
+		}
+		if passed%2 != 0 {
+			note = "!no-equivalence-call"
+		}
+		sends = passed / 2
+	}
 	n := 0
 	for _, ev := range pi.shadow.take(sends) {
 		if pi.ended {
@@ -787,7 +881,7 @@ func (r *real) pidDeliveries(sb *realSub, pi *pidInfo, sends int) string {
 			n++
 		}
 	}
-	out := showList(sb.take(n))
+	out := showList(sb.take(n)) + note
 	if pi.ended {
 		select {
 		case <-sb.done: // the PullID channel was closed
@@ -799,6 +893,7 @@ func (r *real) pidDeliveries(sb *realSub, pi *pidInfo, sends int) string {
 		case <-pi.shadow.done:
 		case <-time.After(waitBound):
 		}
+		r.pidEnded = true
 		out += "$"
 	}
 	return out
